@@ -275,6 +275,18 @@ func (c *ShadowStreamClientConn) writeToGeneric(w io.Writer) (n int64, err error
 }
 
 func (c *ShadowStreamClientConn) initRead(b []byte) (payloadLen int, err error) {
+	if c.ShadowStreamConn.readErr != nil {
+		return 0, c.ShadowStreamConn.readErr
+	}
+	payloadLen, err = c.initReadOnce(b)
+	if err != nil && c.ShadowStreamConn.readCipher != nil {
+		// Bytes of the response header were consumed and rejected.
+		c.ShadowStreamConn.readErr = err
+	}
+	return payloadLen, err
+}
+
+func (c *ShadowStreamClientConn) initReadOnce(b []byte) (payloadLen int, err error) {
 	urspLen := len(c.unsafeResponseStreamPrefix)
 	saltLen := len(c.cipherConfig.PSK)
 	fixedLengthHeaderStart := urspLen + saltLen
@@ -333,6 +345,9 @@ func (c *ShadowStreamClientConn) readFirstPayloadChunk(b []byte) error {
 
 	// Open sealed payload chunk.
 	_, err := c.ShadowStreamConn.readCipher.DecryptInPlace(b)
+	if err != nil {
+		c.ShadowStreamConn.readErr = err
+	}
 	return err
 }
 
@@ -359,6 +374,7 @@ type ShadowStreamConn struct {
 	readBuf    []byte // lazily allocated; length is readEnd
 	readStart  int
 	readCipher *ShadowStreamCipher
+	readErr    error // first authentication or framing failure; the stream cannot be resynchronized after it
 
 	writeBuf    []byte // non-nil; length is always 0
 	writeCipher *ShadowStreamCipher
@@ -460,6 +476,10 @@ func (c *ShadowStreamConn) read(b []byte) (n int, err error) {
 		panic(fmt.Sprintf("ss2022.ShadowStreamConn.read: buffer too small: %d < %d", cap(b), streamReadMinBufferSize))
 	}
 
+	if c.readErr != nil {
+		return 0, c.readErr
+	}
+
 	// Read sealed length chunk.
 	ciphertext := b[:2+tagSize]
 	if _, err = io.ReadFull(c.Conn, ciphertext); err != nil {
@@ -468,12 +488,14 @@ func (c *ShadowStreamConn) read(b []byte) (n int, err error) {
 
 	// Open sealed length chunk.
 	if _, err = c.readCipher.DecryptInPlace(ciphertext); err != nil {
+		c.readErr = err
 		return 0, err
 	}
 
 	// Validate length.
 	length := int(binary.BigEndian.Uint16(ciphertext))
 	if length == 0 {
+		c.readErr = ErrZeroLengthChunk
 		return 0, ErrZeroLengthChunk
 	}
 
@@ -485,6 +507,7 @@ func (c *ShadowStreamConn) read(b []byte) (n int, err error) {
 
 	// Open sealed payload chunk.
 	if _, err = c.readCipher.DecryptInPlace(ciphertext); err != nil {
+		c.readErr = err
 		return 0, err
 	}
 
